@@ -1,6 +1,6 @@
 /-
   Lang — a deep embedding of the core of the Reduino DSL (source side) and of the emitted C++ (target side).
-  Source fragment: int/bool values; + - *, bitwise & | ^, floor division `//` and modulo `%`, `abs`, two-argument `min`/`max`
+  Source fragment: int/bool/string values (W13: string literals, string-typed names, `+` on two strings, serial lines carry text); + - *, bitwise & | ^, floor division `//` and modulo `%`, `abs`, two-argument `min`/`max`
   (W1), unary minus, comparisons, and/or/not, conditional expressions; assignment, augmented assignment (all binary operators),
   tuple (parallel) assignment `a, b = b, a + b` (W5), if/elif/else, while, for-range, break,
   serial write, sleep; a run-once prologue and an optional `while True:` main loop.
@@ -22,6 +22,7 @@ inductive MinMax where | min | max
 inductive Expr where
   | int (n : Int)
   | bool (b : Bool)
+  | str (s : String)                    -- a string literal (W13)
   | var (x : String)
   | bin (op : BinOp) (a b : Expr)
   | neg (a : Expr)
@@ -32,9 +33,10 @@ inductive Expr where
   | ite (c a b : Expr)
   | abs (a : Expr)                      -- the builtin `abs(a)`
   | mm (k : MinMax) (a b : Expr)        -- the builtins `min(a, b)` / `max(a, b)`; n-ary calls are the left fold `min(min(a, b), c)`
+  | toStr (a : Expr)                    -- the builtin `str(a)` (W13); a formatted value `{a}` of an f-string is the same thing
   deriving DecidableEq, Repr
 
-inductive Ty where | int | bool
+inductive Ty where | int | bool | string     -- `string` is the Arduino `String` class
   deriving DecidableEq, Repr
 
 inductive Stmt where
@@ -106,19 +108,47 @@ def Prog.renum (p : Prog) : Prog :=
 inductive Val where
   | int (n : Int)
   | bool (b : Bool)
+  | str (s : String)
   deriving DecidableEq, Repr
 
+/-- the integer a number stands for (a bool is 0/1); a string has none: the callers on the Python side go through `Val.num`, which
+    raises; on the C side a `String` operand of an arithmetic operator does not compile and the model's value is meaningless -/
 def Val.toInt : Val → Int
   | .int n => n
   | .bool b => if b then 1 else 0
+  | .str _ => 0
 
+/-- Python's truth value (a string is true iff it is non-empty).  The C++ reading of a `String` in a condition is different
+    (`StringIfHelperType`: non-null buffer); the fragment keeps strings out of conditions (`Expr.wt`, `Stmt.okNested`) -/
 def Val.truthy : Val → Bool
   | .int n => n ≠ 0
   | .bool b => b
+  | .str s => s ≠ ""
 
 def Val.ty : Val → Ty
   | .int _ => .int
   | .bool _ => .bool
+  | .str _ => .string
+
+def Val.isStr : Val → Bool
+  | .str _ => true
+  | _ => false
+
+/-- the values a name of (coarse, inferred) type `t` holds on the Python side: a bool-typed name a bool, a string-typed name a string,
+    an int-typed name an int or a bool (`x = p & q`), never a string -/
+def Ty.holds : Ty → Val → Bool
+  | .int, .int _ => true
+  | .int, .bool _ => true
+  | .bool, .bool _ => true
+  | .string, .str _ => true
+  | _, _ => false
+
+/-- the text the Arduino core makes of a value: `String(int)` / `Serial.println(int)` print decimal digits with a leading `-`,
+    a bool prints as 1 / 0, a `String` is its characters -/
+def Val.text : Val → String
+  | .int n => toString n
+  | .bool b => if b then "1" else "0"
+  | .str s => s
 
 abbrev Store := List (String × Val)
 
@@ -131,7 +161,7 @@ def Store.setAll (s : Store) : List String → List Val → Store
   | _, _ => s
 
 inductive Ev where
-  | write (n : Int)      -- one serial line carrying an int
+  | write (s : String)   -- one serial line: the printed text (an int prints in decimal)
   | delay (ms : Int)
   deriving DecidableEq, Repr
 
@@ -195,7 +225,7 @@ def BinOp.astName : BinOp → String
   | .add => "Add" | .sub => "Sub" | .mul => "Mult" | .band => "BitAnd" | .bor => "BitOr" | .bxor => "BitXor"
   | .fdiv => "FloorDiv" | .fmod => "Mod"
 
-/-- Python's `min(x, y)` / `max(x, y)`: the FIRST extremal operand, returned as it is (a bool stays a bool) -/
+/-- Python's `min(x, y)` / `max(x, y)` on numbers: the FIRST extremal operand, returned as it is (a bool stays a bool) -/
 def MinMax.pick : MinMax → Val → Val → Val
   | .min, x, y => if y.toInt < x.toInt then y else x
   | .max, x, y => if y.toInt > x.toInt then y else x
@@ -227,8 +257,51 @@ inductive Err where
   | signedDiv
   deriving DecidableEq, Repr
 
-/-- Python's `x op y`: ZeroDivisionError on a zero divisor of `//` and `%` -/
+/-- Python's `str(v)` / `format(v, "")` of an int (decimal digits) or a string (itself).  `str(True)` is `"True"` under CPython and
+    `String(true)` is `"1"` on the device: bools are kept out of the model as for `mon.write` (`typeError`: no theorem speaks about
+    such a run) -/
+def Val.pyStr : Val → Except Err String
+  | .int n => .ok (toString n)
+  | .str s => .ok s
+  | .bool _ => .error .typeError
+
+/-- the operand of Python arithmetic: a string is a TypeError -/
+def Val.num : Val → Except Err Int
+  | .str _ => .error .typeError
+  | v => .ok v.toInt
+
+/-- Python's `x op y`: `+` on two strings concatenates; a string with a number is a TypeError (so is every other operator on
+    strings here: the repetition `s * n` and `%`-formatting are outside the model); ZeroDivisionError on a zero divisor of `//`, `%` -/
 def BinOp.pyEval (op : BinOp) (x y : Val) : Except Err Val :=
-  if op.isDiv ∧ y.toInt = 0 then .error .zeroDiv else .ok (op.pyVal x y)
+  match x, y with
+  | .str s, .str t => if op = .add then .ok (.str (s ++ t)) else .error .typeError
+  | .str _, _ => .error .typeError
+  | _, .str _ => .error .typeError
+  | _, _ => if op.isDiv ∧ y.toInt = 0 then .error .zeroDiv else .ok (op.pyVal x y)
+
+/-- order and equality of two strings (Python compares code points; so does Lean's lexicographic order on `String`) -/
+def CmpOp.evalStr : CmpOp → String → String → Bool
+  | .lt, a, b => a < b
+  | .le, a, b => a ≤ b
+  | .gt, a, b => b < a
+  | .ge, a, b => b ≤ a
+  | .eq, a, b => a = b
+  | .ne, a, b => a ≠ b
+
+/-- Python's comparison: numbers by value, strings lexicographically; a string never equals a number and ordering the two is a
+    TypeError -/
+def CmpOp.pyEval (op : CmpOp) (x y : Val) : Except Err Bool :=
+  match x, y with
+  | .str s, .str t => .ok (op.evalStr s t)
+  | .str _, _ | _, .str _ => (match op with | .eq => .ok false | .ne => .ok true | _ => .error .typeError)
+  | _, _ => .ok (op.eval x.toInt y.toInt)
+
+/-- Python's `min(x, y)` / `max(x, y)`: numbers as `MinMax.pick`, two strings by their order, a mix is a TypeError -/
+def MinMax.pyPick (k : MinMax) (x y : Val) : Except Err Val :=
+  match x, y with
+  | .str s, .str t => .ok (match k with | .min => if t < s then y else x | .max => if s < t then y else x)
+  | .str _, _ => .error .typeError
+  | _, .str _ => .error .typeError
+  | _, _ => .ok (k.pick x y)
 
 end Reduino.Lang
